@@ -40,7 +40,7 @@ def copy_graph(g):
     return c
 
 
-def gen_graph(rng: random.Random, n_nodes: int):
+def gen_graph(rng: random.Random, n_nodes: int, first_id: int = 1):
     """a strongly connected street graph: jittered grid nodes, a one-way ring, two-way and one-way chords, link lengths a
     bit longer than the crow flies, speeds varying by a factor of ten"""
     import networkx as nx
@@ -53,23 +53,24 @@ def gen_graph(rng: random.Random, n_nodes: int):
         x, y = 160.0 * i + rng.uniform(-40, 40), 150.0 * j + rng.uniform(-40, 40)
         lat, lon = world.at(x, y)
         pts.append((x, y))
-        g.add_node(k + 1, x=lon, y=lat)
+        g.add_node(k + first_id, x=lon, y=lat)
 
     def add(u, v):
         if u == v or g.has_edge(u, v):
             return
-        (x1, y1), (x2, y2) = pts[u - 1], pts[v - 1]
+        (x1, y1), (x2, y2) = pts[u - first_id], pts[v - first_id]
         length = math.hypot(x2 - x1, y2 - y1) * rng.uniform(1.0, 1.3) + 1.0
         g.add_edge(u, v, length=length, speed_kmph=rng.choice([5.0, 8.0, 15.0, 25.0, 40.0, 60.0]))
 
-    order = list(range(1, n_nodes + 1))
+    ids = list(range(first_id, n_nodes + first_id))      # junction numbers start at 1, or at 0 (re-indexed graphs)
+    order = list(ids)
     rng.shuffle(order)
     for a, b in zip(order, order[1:] + order[:1]):
         add(a, b)                      # one-way ring: strong connectivity
     for _ in range(n_nodes * 2):
-        u = rng.randint(1, n_nodes)
+        u = rng.choice(ids)
         # prefer near neighbours
-        cand = sorted(range(1, n_nodes + 1), key=lambda w: math.hypot(pts[w - 1][0] - pts[u - 1][0], pts[w - 1][1] - pts[u - 1][1]))[1:5]
+        cand = sorted(ids, key=lambda w: math.hypot(pts[w - first_id][0] - pts[u - first_id][0], pts[w - first_id][1] - pts[u - first_id][1]))[1:5]
         v = rng.choice(cand)
         add(u, v)
         if rng.random() < 0.6:
@@ -124,13 +125,27 @@ def gen_dogleg_graph(rng: random.Random, scale_km: float):
     return g
 
 
-def osm_from_graph(g):
+def split_junction(g, rng: random.Random) -> None:
+    """a junction drawn as two nodes a few metres apart (a median crossing): everything that leaves the junction leaves
+    from the second node, so every path through it crosses the very short connector"""
+    u = rng.choice(sorted(g.nodes()))
+    new = max(g.nodes()) + 1
+    d = g.nodes[u]
+    g.add_node(new, x=d["x"] + 4.0 / 85000.0, y=d["y"])           # about 4 m east
+    for _, w, k, attrs in list(g.out_edges(u, keys=True, data=True)):
+        g.remove_edge(u, w, key=k)
+        g.add_edge(new, w, **dict(attrs))
+    g.add_edge(u, new, length=4.0, speed_kmph=15.0)
+    g.add_edge(new, u, length=4.0, speed_kmph=15.0)
+
+
+def osm_from_graph(g, h3res: int = 15):
     import logging
 
     logging.disable(logging.CRITICAL)
     from nrel.hive.model.roadnetwork.osm.osm_roadnetwork import OSMRoadNetwork
 
-    return OSMRoadNetwork(g)
+    return OSMRoadNetwork(g, sim_h3_resolution=h3res)
 
 
 class NetView:
@@ -166,10 +181,14 @@ class NetView:
         return self.ix[int(a)], self.ix[int(b)]
 
     def cells(self, link_id: str) -> List[str]:
+        """the cells of a link, from the INPUT junction coordinates at the network's resolution (not from the network's
+        link table: a link the table lost must not stop the harness - it shows as a route that cannot be built)"""
         import h3
 
-        lk = self.rn.link_helper.links[link_id]
-        return list(h3.h3_line(lk.start, lk.end))
+        a, b = link_id.split("-")
+        res = self.rn.sim_h3_resolution
+        na, nb = self.ref.nodes[int(a)], self.ref.nodes[int(b)]
+        return list(h3.h3_line(h3.geo_to_h3(na["y"], na["x"], res), h3.geo_to_h3(nb["y"], nb["x"], res)))
 
     def potentials(self, src_ix: int) -> List[int]:
         import networkx as nx
@@ -306,11 +325,13 @@ def write_records(path: Path, job: Dict[str, Any]) -> Dict[str, Any]:
             if kind == "dogleg":
                 g = gen_dogleg_graph(rng, job.get("scale_km", 8.0))
             else:
-                g = gen_graph(rng, job["nodes"])
+                g = gen_graph(rng, job["nodes"], first_id=job.get("first_id", 1))
                 if job.get("parallel", True):
                     add_parallel_links(g, rng, max(1, job["nodes"] // 4))
+                if job.get("split_junction"):
+                    split_junction(g, rng)
             ref = copy_graph(g)
-            rn = osm_from_graph(g)
+            rn = osm_from_graph(g, job.get("h3res", 15))
             view = NetView(rn, job["id"], ref, from_inputs=True)
             fw = len(view.nodes) <= 14
         w(view.graph_line(fw))
@@ -321,8 +342,7 @@ def write_records(path: Path, job: Dict[str, Any]) -> Dict[str, Any]:
         import h3
 
         for k in range(job.get("snaps", 40)):
-            lk = rn.link_helper.links[rng.choice(view.links)]
-            lat, lon = h3.h3_to_geo(rng.choice([lk.start, lk.end]))
-            geoid = h3.geo_to_h3(lat + rng.uniform(-4e-4, 4e-4), lon + rng.uniform(-4e-4, 4e-4), 15)
+            lat, lon = h3.h3_to_geo(rng.choice(view.cells(rng.choice(view.links))))
+            geoid = h3.geo_to_h3(lat + rng.uniform(-4e-4, 4e-4), lon + rng.uniform(-4e-4, 4e-4), job.get("h3res", 15))
             w(snap_record(rn, "osm", f"{job['id']}#s{k}", geoid))
     return {"routes": n_routes, "net": kind, "nodes": len(view.nodes), "links": len(view.links), "fw": fw}
